@@ -28,9 +28,8 @@ fn reference(b: &[u8; N], n: usize, off: usize) -> (usize, usize, bool) {
 #[kani::proof]
 #[kani::unwind(9)]
 pub fn offset_to_location_one() {
-    let s = SymStr::<N>::any_utf8();
     // concrete length: symbolic-length text makes every std iterator adaptor in the function branch on it
-    kani::assume(s.n == N);
+    let s = SymStr::<N>::any_utf8_len(N);
     let off: usize = kani::any();
     kani::assume(off <= s.n);
     // spans produced by the parsers lie on character boundaries
@@ -57,8 +56,7 @@ pub fn offset_to_location_one() {
 #[kani::proof]
 #[kani::unwind(9)]
 pub fn offset_to_location_pair() {
-    let s = SymStr::<N>::any_utf8();
-    kani::assume(s.n == N);
+    let s = SymStr::<N>::any_utf8_len(N);
     let a: usize = kani::any();
     let b: usize = kani::any();
     kani::assume(a <= b && b <= s.n);
